@@ -1,9 +1,16 @@
+"""C06 — Mask-respecting play never violates the hard constraints.  Driver over the per-environment sidecar contracts (contracts/<env>.py): keeps the clauses named C06.*"""
 from jxv import envdriver
+
+LEVEL = "proof"
+CONFIG_BOUND = "configurations listed in contracts/envs.py or in the contract module itself (small and adversarial: non-square, minimum sizes, >1 agents); values unbounded"
+NOT_VERIFIED = ["environments / clauses for which no C06 clause is present in the contract module (the evidence lists, per task, which clauses were discharged)",
+                "configurations outside the list"]
+ASSUMPTIONS = ["sampler contracts of jax.random (DESIGN.md section 5)", "induction over the episode from the per-step obligations (reset establishes Inv, step preserves it)"]
 
 
 def tasks(tier):
     return envdriver.tasks("C06", tier)
 
 
-LEVEL_TEXT = "wip"
-LEVEL_NOTE = "wip"
+LEVEL_TEXT = ('Proof: Feasible(state), recomputed from raw state arrays, is part of the inductive invariant: reset establishes it for every key / sampler outcome and every legal action preserves it; an episode ending by completion yields a complete feasible solution. By induction every state reached by mask-respecting play is feasible.')
+LEVEL_NOTE = ('instance sizes enumerated (tiny for BinPack); coordinates, durations, demands unbounded; MultiCVRP and MMST are not covered (listed in not_verified).')
